@@ -59,10 +59,10 @@ def run(ctx):
     rcf = ctx.rule('R-CASFRESH', 'every retry of a compare-exchange re-tests the refreshed expected value against the '
                    'sentinels the first attempt tested', minimum=0)
     for cfg, fb in sorted(fbs.items()):
-        lib_order.check_cas_fresh(ctx, fb, rcf, lambda f: 'OneShotEvent' in f.qn or 'one_shot_event' in f.file)
-        lib_shape.check(ctx, fb, rsh, lambda qn: 'SetImpl' in qn and 'BaseCore' not in qn, 1)
-        lib_order.check(ctx, fb, cfg, [HEAD, COUNT], rw, ro, rc)
-        lib_order.check_counter_reads(ctx, fb, ro)
+        ctx.guard(lambda: lib_order.check_cas_fresh(ctx, fb, rcf, lambda f: 'OneShotEvent' in f.qn or 'one_shot_event' in f.file))
+        ctx.guard(lambda: lib_shape.check(ctx, fb, rsh, lambda qn: 'SetImpl' in qn and 'BaseCore' not in qn, 1))
+        ctx.guard(lambda: lib_order.check(ctx, fb, cfg, [HEAD, COUNT], rw, ro, rc))
+        ctx.guard(lambda: lib_order.check_counter_reads(ctx, fb, ro))
         # ---- readiness
         ka = fb.vars.get('yaclib::OneShotEvent::kAllDone', {}).get('v')
         ke = fb.vars.get('yaclib::OneShotEvent::kEmpty', {}).get('v')
@@ -72,12 +72,12 @@ def run(ctx):
             lib_ready.check(ctx, fb, rr, f, 'R-READY yaclib::OneShotEvent::Ready [%s]' % cfg, word='_head',
                             consts={'E': ke, 'R': ka})
         for f in fb.by_qn('yaclib::FutureBase::Ready')[:1]:
-            lib_ready.check(ctx, fb, rr, f, 'R-READY yaclib::FutureBase::Ready (attached futures) [%s]' % cfg)
+            ctx.guard(lambda: lib_ready.check(ctx, fb, rr, f, 'R-READY yaclib::FutureBase::Ready (attached futures) [%s]' % cfg))
         # ---- Set walk
         setimpl = [f for f in fb.fn.values() if f.qn.endswith('::SetImpl') and 'one_shot_event' in f.file]
         if not setimpl:
             ctx.broken('SetImpl of OneShotEvent not found')
-        lib_exec.check_dequeue(ctx, fb, rl, setimpl)
+        ctx.guard(lambda: lib_exec.check_dequeue(ctx, fb, rl, setimpl))
         # ---- TryAdd
         for f in fb.by_qn('yaclib::OneShotEvent::TryAdd'):
             key = 'R-TRYADD yaclib::OneShotEvent::TryAdd'
@@ -221,5 +221,5 @@ def run(ctx):
                 ctx.report(rtw, key, f.where, 'Call must wake the waiter (Set) and then drop the list\'s reference '
                            '(DecRef), in this order (saw %s)' % seq)
         if cfg != 'K17':
-            lib_coro.check_suspend_result(ctx, fb, rsu)
-            lib_coro.check_handoff(ctx, fb, rh)
+            ctx.guard(lambda: lib_coro.check_suspend_result(ctx, fb, rsu))
+            ctx.guard(lambda: lib_coro.check_handoff(ctx, fb, rh))
